@@ -302,8 +302,17 @@ def run(chk):
                       'TLC found a counterexample in the argument reader: %s\n%s' % (res.violated, res.trace_text[:2500]))
     if not res.beh:
         raise MachineryError('C05: no argument behaviours emitted')
-    results = pmap(replay_args, res.beh, chunksize=200)
-    for beh, (kind, msg) in zip(res.beh, results):
+    behs = res.beh
+    if len(behs) > 150000:
+        # every call of <= 2 arguments, a seeded sample of the 3-argument ones (TLC has checked all of them)
+        import random
+        small = [b for b in behs if len(b['sig']) <= 2]
+        big = [b for b in behs if len(b['sig']) > 2]
+        random.Random(chk.seed).shuffle(big)
+        behs = small + big[:150000 - len(small)]
+        chk.extra['args_replayed'] = '%d of %d generated calls' % (len(behs), len(res.beh))
+    results = pmap(replay_args, behs, chunksize=200)
+    for beh, (kind, msg) in zip(behs, results):
         nt = any(k != 'man' for k in beh['sig']) and any(len(w) > 2 for w in beh['want'])
         chk.case(['args', beh['sig'], beh['call'], beh['follower']], nt,
                  {'signature': argstring(beh['sig']), 'call': src_of(beh['call']) + src_of(beh['follower'])} if nt and len(beh['call']) > 12 else None)
@@ -333,5 +342,5 @@ def run(chk):
             chk.traces += 1
             if k2 != 'ok':
                 chk.violation('num:%s:%s' % (kind, k2), msg, beh)
-    chk.exhaustive = True
+    chk.exhaustive = len(behs) == len(res.beh)
     chk.extra['bounds'] = {'MaxArgs': maxargs}
